@@ -92,6 +92,7 @@ func runCond(c *Case) *Obs {
 			L.gates[w] = newGate()
 			L.pos[w] = pos
 			ctx := ctxs.get(cid)
+			h.add("spawn", w)
 			wg.Add(1)
 			started := make(chan struct{})
 			go func() {
@@ -143,6 +144,7 @@ func runCond(c *Case) *Obs {
 	}
 	ok := quiesce(h, 5*time.Second, nil)
 	quiet = quiet && ok
+	h.add("quiesce", ok)
 	evs := h.snapshot()
 	// clean up: let every goroutine of this scenario finish
 	for _, g := range L.gates {
